@@ -54,7 +54,7 @@ func checkMain(args []string) {
 	tier := fs.String("tier", "quick", "quick or thorough")
 	verif := fs.String("verif", "/verif", "verification directory")
 	updateLedger := fs.Bool("update-ledger", false, "rewrite the obligation ledger from this run")
-	par := fs.Int("par", 5, "obligations in flight")
+	par := fs.Int("par", 10, "obligations in flight")
 	verbose := fs.Bool("v", false, "verbose")
 	fs.Parse(args)
 	if *prop == "" {
@@ -124,10 +124,13 @@ func checkMain(args []string) {
 			engineErrs = append(engineErrs, err.Error())
 		}
 	}
-	// C20 is the union of the safety obligations of every function under contract.
-	// Functional obligations (post, assert, frame) of a function that is also tagged
-	// with another *claimed* property are discharged by that property's check and are
-	// only assumed here (modular reasoning); they are dropped from this run.
+	// C20 is the union of the safety obligations of every function under contract:
+	// bounds, nil, division, overflow, type assertions, unreachable panics, variants,
+	// and the postconditions that carry representation invariants and index ranges.
+	// The other obligations (functional postconditions, assertions, frames, loop
+	// invariants, callee preconditions) of a function that is also tagged with
+	// another *claimed* property are discharged by that property's check and are only
+	// assumed here (modular reasoning); they are dropped from this run.
 	skippedFunctional := 0
 	if *prop == "C20" {
 		claimed := claimedProperties(*verif)
@@ -143,7 +146,8 @@ func checkMain(args []string) {
 			}
 			var keep []*Oblig
 			for _, o := range u.obligs {
-				if (o.class == "post" || o.class == "assert" || o.class == "frame") && !o.expectFail && !safetyLabel(o.label) {
+				functional := o.class == "post" || o.class == "assert" || o.class == "frame" || o.class == "inv-init" || o.class == "inv-preserve" || o.class == "pre"
+				if functional && !o.expectFail && !(o.class == "post" && safetyLabel(o.label)) {
 					skippedFunctional++
 					continue
 				}
@@ -156,7 +160,12 @@ func checkMain(args []string) {
 	if *tier == "thorough" {
 		which = solvers
 	}
+	tGen := time.Since(t0)
 	dischargeAll(append(append([]*Unit{}, units...), canaries...), dir, timeout, *par, which)
+	tSolve := time.Since(t0)
+	if os.Getenv("GOVC_TIMING") != "" {
+		fmt.Fprintf(os.Stderr, "timing: load+gen %.1fs, discharge %.1fs\n", tGen.Seconds(), (tSolve - tGen).Seconds())
+	}
 
 	// canaries: the engine must refute what is false and prove what is true
 	for _, u := range canaries {
@@ -216,6 +225,9 @@ func checkMain(args []string) {
 				}
 			}
 		}
+	}
+	if os.Getenv("GOVC_TIMING") != "" {
+		fmt.Fprintf(os.Stderr, "timing: bounded execution done at %.1fs\n", time.Since(t0).Seconds())
 	}
 	known := loadKnown(filepath.Join(*verif, "known_findings.jsonl"))
 	ledgerPath := filepath.Join(*verif, "ledger", *prop+".txt")
